@@ -143,6 +143,9 @@ const PROGRAMS: &[(&str, &str)] = &[
     ("defined", "v = 1\n#d8 v\n#if v == 2\n{\n#d8 0xee\n}\n"),
 ];
 
+/// the second input file of multi-input command lines: assembled after the first, never names an output
+pub const EXTRA_INPUT: (&str, &str) = ("extra.asm", "#d8 0x77\nextra_k = 3\nextra_l:\n");
+
 #[derive(Clone, Debug)]
 pub struct Group {
     pub spec: Option<String>,
@@ -153,6 +156,8 @@ pub struct Group {
 pub struct Cli {
     pub program: usize,
     pub input: String,
+    /// v2: a second input file given right behind the first (`customasm <INPUT-FILES...>`)
+    pub extra_input: bool,
     pub groups: Vec<Group>,
     pub args: Vec<String>,
     pub iters: Option<String>,
@@ -251,7 +256,8 @@ pub fn gen_cli(t: &mut Tape) -> Cli {
             per_group[g].insert(at + k, it);
         }
     };
-    place(t, &mut per_group, vec![input.clone()]);
+    let extra_input = crate::engine::gen_version() >= 2 && t.chance(1, 5);
+    place(t, &mut per_group, if extra_input { vec![input.clone(), EXTRA_INPUT.0.to_string()] } else { vec![input.clone()] });
     if quiet {
         let q = if t.flip() { "-q" } else { "--quiet" };
         place(t, &mut per_group, vec![q.to_string()]);
@@ -284,7 +290,7 @@ pub fn gen_cli(t: &mut Tape) -> Cli {
         }
         args.extend(g);
     }
-    Cli { program, input, groups, args, iters, defines, quiet, help_or_version }
+    Cli { program, input, extra_input, groups, args, iters, defines, quiet, help_or_version }
 }
 
 #[derive(Debug)]
@@ -335,6 +341,9 @@ pub fn expectation(cli: &Cli, docs: &[FormatDoc]) -> Expect {
     // assemble through the library with the same budget and defines
     let mut fs = MemFs::new();
     fs.add(&cli.input, PROGRAMS[cli.program].1.as_bytes().to_vec());
+    if cli.extra_input {
+        fs.add(EXTRA_INPUT.0, EXTRA_INPUT.1.as_bytes().to_vec());
+    }
     let mut opts = asm::AssemblyOptions::new();
     opts.max_iterations = budget;
     for (n, v) in &cli.defines {
@@ -342,7 +351,8 @@ pub fn expectation(cli: &Cli, docs: &[FormatDoc]) -> Expect {
         opts.driver_symbol_defs.push(asm::DriverSymbolDef { name: n.clone(), value: customasm::expr::Value::make_integer(customasm::util::BigInt::new(val, None)) });
     }
     let mut report = diagn::Report::new();
-    let res = asm::assemble(&mut report, &opts, &mut fs, &[cli.input.as_str()]);
+    let roots: Vec<&str> = if cli.extra_input { vec![cli.input.as_str(), EXTRA_INPUT.0] } else { vec![cli.input.as_str()] };
+    let res = asm::assemble(&mut report, &opts, &mut fs, &roots);
     let (Some(out), Some(decls), Some(defs)) = (res.output.as_ref(), res.decls.as_ref(), res.defs.as_ref()) else {
         return Expect::AssemblyFails;
     };
@@ -405,6 +415,10 @@ impl Property for C18 {
         });
         let mut fs = MemFs::new();
         fs.add(&cli.input, PROGRAMS[cli.program].1.as_bytes().to_vec());
+        if cli.extra_input {
+            fs.add(EXTRA_INPUT.0, EXTRA_INPUT.1.as_bytes().to_vec());
+            ctx.label("two-inputs");
+        }
         let r = sut::drive(&mut fs, &cli.args);
         ctx.evals += 1;
         let fail = |ctx: &mut CaseCtx, clause: &str, detail: String| -> Verdict {
@@ -466,13 +480,17 @@ impl Property for C18 {
         if t.chance(1, 25) {
             ctx.label("real-binary");
             let dir = realbin::scratch("c18");
-            realbin::materialize(&dir, &[(cli.input.clone(), PROGRAMS[cli.program].1.as_bytes().to_vec())]);
+            let mut inputs = vec![(cli.input.clone(), PROGRAMS[cli.program].1.as_bytes().to_vec())];
+            if cli.extra_input {
+                inputs.push((EXTRA_INPUT.0.to_string(), EXTRA_INPUT.1.as_bytes().to_vec()));
+            }
+            realbin::materialize(&dir, &inputs);
             let mut args = cli.args.clone();
             args.push("--color=off".into());
             let r = realbin::run(&realbin::bin_path(false), &dir, &args, &realbin::Limits::default());
             ctx.evals += 1;
             let mut files = realbin::snapshot(&dir);
-            files.retain(|f| f.0 != cli.input);
+            files.retain(|f| f.0 != cli.input && f.0 != EXTRA_INPUT.0);
             let _ = std::fs::remove_dir_all(&dir);
             let stdout = String::from_utf8_lossy(&r.stdout).to_string();
             let res: Option<(String, String)> = if r.signal.is_some() || r.timed_out {
